@@ -250,6 +250,7 @@ class Ppar(EventPattern):
                     # // That child stream ended, so rest until next one.
                     nexttime = queue.peek()[0]
                     outevent = evt.silent(nexttime - now, inevent)
+                    outevent['delta'] = nexttime - now  # Already in stretched time.
                     inevent = yield outevent
                     now = nexttime
                 else:
